@@ -43,13 +43,13 @@ func (m *Manager) AggregationLoop(ctx context.Context, errCh chan<- error) {
 	// transactions or every LazyBlockTime.
 	if m.config.Node.LazyMode {
 		if err := m.lazyAggregationLoop(ctx, blockTimer); err != nil {
-			errCh <- fmt.Errorf("error in lazy aggregation loop: %w", err)
+			sendError(ctx, errCh, fmt.Errorf("error in lazy aggregation loop: %w", err))
 		}
 		return
 	}
 
 	if err := m.normalAggregationLoop(ctx, blockTimer); err != nil {
-		errCh <- fmt.Errorf("error in normal aggregation loop: %w", err)
+		sendError(ctx, errCh, fmt.Errorf("error in normal aggregation loop: %w", err))
 	}
 }
 
@@ -138,4 +138,13 @@ func getRemainingSleep(start time.Time, interval time.Duration) time.Duration {
 	}
 
 	return time.Millisecond
+}
+
+// sendError reports a fatal loop error to the node unless the node is already shutting down: errCh has one
+// slot and is read at most once, so a bare send can block for ever after the stop request.
+func sendError(ctx context.Context, errCh chan<- error, err error) {
+	select {
+	case errCh <- err:
+	case <-ctx.Done():
+	}
 }
